@@ -94,6 +94,32 @@ func init() {
 	})
 }
 
+// vtag has a registered custom codec of the other common shape: the whole
+// slice is one gob value, and Decode copies what it received (copy checks no
+// length). With only such columns nothing but the checksum protects the batch
+// length.
+type vtag int
+
+func init() {
+	frame.RegisterOps(func(slice []vtag) frame.Ops {
+		return frame.Ops{
+			Less:         func(i, j int) bool { return slice[i] < slice[j] },
+			HashWithSeed: func(i int, seed uint32) uint32 { return uint32(slice[i]) + seed },
+			Encode: func(e frame.Encoder, i, j int) error {
+				return e.Encode(slice[i:j])
+			},
+			Decode: func(d frame.Decoder, i, j int) error {
+				var p []vtag
+				if err := d.Decode(&p); err != nil {
+					return err
+				}
+				copy(slice[i:j], p)
+				return nil
+			},
+		}
+	})
+}
+
 const junk = 7777 // every field of every destination cell before a Read
 const bad = -987654321
 
@@ -141,6 +167,9 @@ var colTypes = []colType{
 		}},
 	{"vint", "KCodec", 1, reflect.TypeOf(vint(0)),
 		func(c []int64) reflect.Value { return reflect.ValueOf(vint(c[0])) },
+		func(v reflect.Value) []int64 { return []int64{v.Int()} }},
+	{"vtag", "KCodecBulk", 1, reflect.TypeOf(vtag(0)),
+		func(c []int64) reflect.Value { return reflect.ValueOf(vtag(c[0])) },
 		func(v reflect.Value) []int64 { return []int64{v.Int()} }},
 }
 
@@ -232,7 +261,7 @@ func encodeStream(sch []string, batches []Batch) (stream []byte, msgEnds []int, 
 // ---------------------------------------------------------------- oracle (plain gob)
 
 type Tok struct {
-	K    string    `json:"k"` // len flag col val crc
+	K    string    `json:"k"` // len flag col val bulk crc
 	N    int64     `json:"n,omitempty"`
 	B    bool      `json:"b,omitempty"`
 	Data [][]int64 `json:"data,omitempty"`
@@ -253,6 +282,8 @@ func (t Tok) term() string {
 		return vf.App("TCol", vf.ZListList(t.Data))
 	case "val":
 		return vf.App("TVal", vf.ZList(t.Data[0]))
+	case "bulk":
+		return vf.App("TBulk", vf.ZListList(t.Data))
 	case "crc":
 		return vf.App("TCrc", fmt.Sprintf("%d%%N", t.N))
 	}
@@ -333,8 +364,24 @@ func tokenize(stream []byte, sch []string) (toks []Tok, term string) {
 				return toks, termOf(err)
 			}
 			push(Tok{K: "flag", B: b})
-			if b && t.kind != "KCodec" {
+			if b && t.kind != "KCodec" && t.kind != "KCodecBulk" {
 				return toks, "SStop" // decode returns "no codec available"
+			}
+			if b && t.kind == "KCodecBulk" { // the custom Decode: one slice value, copied
+				pv := reflect.New(reflect.SliceOf(t.typ))
+				if err := dec.DecodeValue(pv); err != nil {
+					return toks, termOf(err)
+				}
+				sl := pv.Elem()
+				if sl.Len() > oracleMaxRows {
+					return toks, "SStop"
+				}
+				data := make([][]int64, sl.Len())
+				for i := range data {
+					data[i] = t.toZ(sl.Index(i))
+				}
+				push(Tok{K: "bulk", Data: data})
+				continue
 			}
 			if b {
 				for k := 0; k < n; k++ {
@@ -1038,6 +1085,7 @@ func damageCases(s *streamInfo, d Damage, dests []int, only string) ([]vf.Case, 
 var schemas = [][]string{
 	{"int"}, {"string"}, {"pair"}, {"vint"}, {"int", "string"}, {"pair", "vint"},
 	{"string", "pair", "vint"}, {"vint", "int"}, {"int", "pair"},
+	{"vtag"}, {"vtag", "vint"}, {"vtag", "vtag"}, {"int", "vtag"},
 }
 
 func genCell(r *vf.Rand, t *colType) []int64 {
@@ -1257,6 +1305,11 @@ func main() {
 			}
 			addDamage(probe, Damage{K: "burst", Pos: 0, Xors: xs}, []int{4})
 		}
+		// streams whose columns ALL have custom codecs: no gob column, hence no
+		// column-length cross-check; only the checksum protects the batch length.
+		// Swept exhaustively in both tiers, destinations below/equal/above the batch sizes.
+		sweep(buildStream([]string{"vtag"}, []Batch{{{{5}, {0}, {9}}}, {{{7}, {300}}}}), []int{2, 3, 4})
+		sweep(buildStream([]string{"vtag", "vtag"}, []Batch{{{{1}}, {{2}}}, {{{3}, {4}}, {{0}, {6}}}}), []int{1})
 		small := []struct {
 			sch []string
 			bs  []Batch
